@@ -19,7 +19,7 @@ RULE = (
     "eps=1/2), stats} around a FunctionProblem, both directions; programs = all sequences of 5 (quick; 6 for depth <= 3 in thorough) evaluate calls "
     "whose objective values come from {optimum, optimum +- 1/2 (exactly on the precision boundary), 3/4, far, +inf, -inf, NaN (the objective itself may return the value a cutoff wrapper uses as sentinel)}; after every call the returned "
     "value, every wrapper's counter, ETA, hit flag, the verdict of SingularProblemPrecisionReached, bounds, maximize, worse_than, "
-    "get_function_problem and the number of real objective invocations are compared with the reference model; states = distinct (stack, "
+    "get_function_problem and the number of real objective invocations are compared with the reference model; plus every ordered pair of wrapper kinds around ONE shared inner problem, every interleaving of 5 calls through either wrapper (each counts what it forwarded); states = distinct (stack, "
     "counter vector, flags), transitions = calls; non-trivial = a sequence in which a cutoff refused or the precision was hit more than once"
 )
 ASSUMPTIONS = ["objective values from the stated alphabet (incl. +-inf and NaN)", "durations of the stats wrapper are not compared, only their number"]
@@ -251,6 +251,7 @@ def units(tier, seed):
     for i in range(0, len(s3), step):
         us.append({"stacks": s3[i : i + step], "len": 3, "vals": [0.0, 0.5, 0.75, 10.0], "inner": "user", "shapes": True})
         us.append({"stacks": s3[i : i + step], "len": 3, "vals": [0.0, 0.5, 0.75, 10.0], "inner": "function", "shapes": True})
+    us.append({"kind": "diamond"})
     us.append({"kind": "long", "n": 72000, "cutoff": 70000})
     us.append({"kind": "long", "n": 34000, "cutoff": 40000})
     return us
@@ -303,8 +304,77 @@ def long_sequence(res, n_calls, cutoff):
         res.states.add(h64(("long", n_calls, cutoff, mx)))
 
 
+def diamond(res, only=None):
+    """Two wrappers (every ordered pair of kinds) around ONE shared inner problem (a FunctionProblem, or an
+    EvalCountingProblem around it), every interleaving of 5 calls through wrapper A or B: each wrapper counts
+    exactly the calls IT forwarded, the shared inner counter and the objective see the sum (wave 13, C16u_1)."""
+    from pyhms.core.problem import EvalCountingProblem, EvalCutoffProblem, FunctionProblem, PrecisionCutoffProblem, StatsGatheringProblem
+
+    def wrap(k, inner, mx):
+        if k == "count":
+            return EvalCountingProblem(inner)
+        if k.startswith("cut"):
+            return EvalCutoffProblem(inner, int(k[3]))
+        if k == "prec":
+            return PrecisionCutoffProblem(inner, 0.0, 0.5)
+        return StatsGatheringProblem(inner)
+
+    x = np.array([0.5, 3.5])
+    for ka, kb in itertools.product(KINDS, repeat=2):
+        for mx in (False, True):
+            for shared_counting in (False, True):
+                for seq in itertools.product("AB", repeat=5):
+                    key = [ka, kb, mx, shared_counting, "".join(seq)]
+                    if only is not None and key != only:
+                        continue
+                    calls = [0]
+
+                    def f(g):
+                        calls[0] += 1
+                        return 10.0
+
+                    fp = FunctionProblem(f, bounds=np.array([(-1.0, 2.0), (3.0, 4.5)]), maximize=mx)
+                    inner = EvalCountingProblem(fp) if shared_counting else fp
+                    w = {"A": wrap(ka, inner, mx), "B": wrap(kb, inner, mx)}
+                    kind = {"A": ka, "B": kb}
+                    n = {"A": 0, "B": 0}
+                    rep = {"check": ID, "unit": {"kind": "diamond"}, "desc": {"diamond": key}, "dev": []}
+                    bad = None
+                    for step, c in enumerate(seq):
+                        cut = int(kind[c][3]) if kind[c].startswith("cut") else None
+                        refused = cut is not None and n[c] >= cut
+                        got = w[c].evaluate(x)
+                        if not refused:
+                            n[c] += 1
+                        want = (-math.inf if mx else math.inf) if refused else 10.0
+                        if got != want:
+                            bad = ("C16/returned-value:shared-inner", f"call {step + 1} through wrapper {c} ({kind[c]}) returned {got!r}, reference {want!r}")
+                        for c2 in "AB":
+                            if bad is None and w[c2].n_evaluations != n[c2]:
+                                bad = (f"C16/counter:shared-inner:{kind[c2]}", f"two wrappers ({ka}, {kb}) around one inner problem, calls {''.join(seq[: step + 1])}: wrapper {c2} ({kind[c2]}) reports {w[c2].n_evaluations} evaluations, it forwarded {n[c2]}")
+                            if bad is None and kind[c2] == "stats" and len(w[c2].durations) != n[c2]:
+                                bad = ("C16/stats-durations:shared-inner", f"stats wrapper {c2} holds {len(w[c2].durations)} durations after forwarding {n[c2]} calls (calls {''.join(seq[: step + 1])})")
+                        if bad is None and (calls[0] != n["A"] + n["B"] or (shared_counting and inner.n_evaluations != n["A"] + n["B"])):
+                            bad = ("C16/objective-invocations:shared-inner", f"objective invoked {calls[0]} times, wrappers forwarded {n['A'] + n['B']}")
+                        if bad is not None:
+                            break
+                        res.transitions.add(h64(("diamond", ka, kb, mx, shared_counting, n["A"], n["B"], c)))
+                        res.states.add(h64(("diamond", ka, kb, mx, shared_counting, n["A"], n["B"])))
+                    res.executions += 1
+                    if bad is not None:
+                        res.add_violation(ID, bad[0], bad[1], {}, rep)
+    res.flags["two wrappers around one shared inner problem (interleaved calls)"] += 1
+
+
 def run_unit(unit):
     res = Result()
+    if unit.get("kind") == "diamond":
+        diamond(res)
+        res.configs += 1
+        res.configs_completed += 1
+        res.status["ok"] += res.executions
+        res.by_bound[0] += res.executions
+        return res
     if unit.get("kind") == "long":
         long_sequence(res, unit["n"], unit["cutoff"])
         res.configs += 1
@@ -335,6 +405,9 @@ def finish(res, tier):
 def replay(rep):
     d = rep["desc"]
     res = Result()
+    if "diamond" in d:
+        diamond(res, only=d["diamond"])
+        return res.violations
     if "long" in d:
         long_sequence(res, d["long"][0], d["long"][1])
         return res.violations
